@@ -170,6 +170,33 @@ def rule_loop_carried(ctx):
             lf.block(loop.body, set(tnames))
             ctx.check(not lf.hits, 'R10.1/no-leftover-from-earlier-loop', con, f"{len(leaked)} names left over from earlier per-sample loops, none read before being redefined",
                       "values left over from the last sample of an earlier loop are read for every sample: " + ", ".join(f"{v} (line {ln})" for v, ln in sorted(lf.hits.items())), f.where(loop))
+            # a container created outside the loop that the body both fills and reads is a channel from one sample to the next
+            # (a memo keyed by file path, a list that is never reset), unless it is keyed by the loop's own sample on both sides
+            body_assigned = assigned_names(loop.body)
+            filled, read = {}, {}
+            for n in ast.walk(loop):
+                if isinstance(n, ast.Subscript) and isinstance(n.value, ast.Name) and n.value.id not in body_assigned | tnames | {'data', 'self'}:
+                    key = ast.unparse(n.slice)
+                    (filled if isinstance(n.ctx, ast.Store) else read).setdefault(n.value.id, []).append((key, n.lineno))
+                elif isinstance(n, ast.Call) and isinstance(n.func, ast.Attribute) and isinstance(n.func.value, ast.Name) \
+                        and n.func.value.id not in body_assigned | tnames | {'data', 'self'} and n.func.value.id not in f.module.imports:
+                    if n.func.attr in ('append', 'extend', 'update', 'setdefault', 'add', 'insert'):
+                        filled.setdefault(n.func.value.id, []).append(('*', n.lineno))
+                        if n.func.attr == 'setdefault':
+                            read.setdefault(n.func.value.id, []).append(('*', n.lineno))
+                    elif n.func.attr in ('get', 'pop', 'items', 'values', 'keys', '__contains__'):
+                        read.setdefault(n.func.value.id, []).append(('*', n.lineno))
+                elif isinstance(n, ast.Compare) and any(isinstance(o, (ast.In, ast.NotIn)) for o in n.ops):
+                    for c in n.comparators:
+                        if isinstance(c, ast.Name) and c.id not in body_assigned | tnames | {'data', 'self'}:
+                            read.setdefault(c.id, []).append(('*', n.lineno))
+            channels = []
+            for name in sorted(set(filled) & set(read)):
+                keys = {k for k, _ in filled[name]} | {k for k, _ in read[name]}
+                if keys != {svar}:
+                    channels.append(f"{name} (filled at line {filled[name][0][1]}, read at line {read[name][0][1]})")
+            ctx.check(not channels, 'R10.1/no-cross-sample-container', con, "no container from outside the loop is both filled and read by the body",
+                      "containers that outlive one sample are filled and read inside the per-sample loop: " + ", ".join(channels), f.where(loop))
             # every store into per-sample tables is keyed by this loop's sample
             bad = []
             for st in ast.walk(loop):
